@@ -192,6 +192,26 @@ def c15_1(ctx: Ctx) -> RuleResult:
     return res
 
 
+def _stored_attr(ctx: Ctx, m: Func | None) -> str | None:
+    """The attribute of self a registration method stores into (`self.X[key] = v`, `self.X[key].append(v)`, ...)."""
+    if m is None or not m.positional:
+        return None
+    selfn = m.positional[0]
+    for n in ast.walk(m.node):
+        base = None
+        if isinstance(n, ast.Assign):
+            for t in n.targets:
+                if isinstance(t, ast.Subscript):
+                    base = t.value
+        elif isinstance(n, ast.Call) and isinstance(n.func, ast.Attribute) and n.func.attr in ("append", "add", "setdefault", "update", "insert"):
+            base = n.func.value
+        while isinstance(base, ast.Subscript):
+            base = base.value
+        if isinstance(base, ast.Attribute) and isinstance(base.value, ast.Name) and base.value.id == selfn:
+            return base.attr
+    return None
+
+
 # --------------------------------------------------------------------- C15.2
 @rule(P)
 def c15_2(ctx: Ctx) -> RuleResult:
@@ -222,7 +242,10 @@ def c15_2(ctx: Ctx) -> RuleResult:
     # (a) handler loop iterates the handler registry, each handler gets the event
     loop = parent(parent(hc))
     ht = X.at(f, hc)
-    ok = isinstance(loop, ast.For) and ht[1][1][0] == "iter" and "_handlers" in show(ht[1][1]) and ht[2] == (("param", f.qualname, ev),)
+    # the registry of handlers: the attribute add_handler stores into
+    hattr = _stored_attr(ctx, ctx.repo.cls(PLAN).methods.get("add_handler"))
+    ok = (isinstance(loop, ast.For) and ht[1][1][0] == "iter" and hattr is not None
+          and contains(ht[1][1], lambda s_: s_[0] == "attr" and s_[2] == hattr and s_[1][0] == "param") and ht[2] == (("param", f.qualname, ev),))
     res.add(f, hc, "every registered handler of this plan receives the event exactly once (one call inside one loop over the registry)", ok,
             "" if ok else f"handler delivery is `{show(ht, 100)}`", construct="emit_event: handlers loop")
     # no nested loop / repeated call
@@ -282,7 +305,9 @@ def c15_2(ctx: Ctx) -> RuleResult:
     if ok:
         t = X.at(co, cbs[0])
         it = t[1][1]
-        ok = "event_type" in show(it) and "_subscribers" in show(it) and len(t[2]) == 1 and t[2][0][0] == "param"
+        sattr = _stored_attr(ctx, co.cls.methods.get("add_observer") if co.cls else None)
+        ok = ("event_type" in show(it) and sattr is not None and contains(it, lambda s_: s_[0] == "attr" and s_[2] == sattr and s_[1][0] == "param")
+              and len(t[2]) == 1 and t[2][0][0] == "param")
     res.add(co, co.node, "call_observers calls every subscriber of event.event_type once with the event", ok,
             "" if ok else "observer delivery is not one call per subscriber of the event's type", construct="call_observers shape")
     res.floor = 10
